@@ -70,6 +70,100 @@ theorem neighbourParts_valid (n : Nat) (p q : HashParts) (dir : MW) (hn : 1 ≤ 
     (hp : Valid n p) (h : neighbourParts n p dir = some q) : Valid n q :=
   nbAt_valid n p.d0h _ _ q hn hn2 hp.1 (by rw [← neighbourParts_eq_nbAt]; exact h)
 
+/-! ## where there is no neighbour; number of neighbours -/
+
+/-- the shifted coordinates `(i', j')` in base cell `b` designate no cell: beyond the E or W corner of a polar-cap
+    base cell, beyond the S or N corner of an equatorial base cell -/
+def Hole (n : Nat) (b : Nat) (i' j' : Int) : Prop :=
+  (b / 4 ≠ 1 ∧ ((i' < 0 ∧ (n : Int) ≤ j') ∨ ((n : Int) ≤ i' ∧ j' < 0))) ∨
+  (b / 4 = 1 ∧ ((i' < 0 ∧ j' < 0) ∨ ((n : Int) ≤ i' ∧ (n : Int) ≤ j')))
+
+set_option maxHeartbeats 400000 in
+theorem nbAt_none_iff (n : Nat) (b : Nat) (i' j' : Int) (hb : b < 12) :
+    nbAt n b i' j' = none ↔ Hole n b i' j' := by
+  unfold nbAt
+  rcases zone_cases n i' with ⟨h1, hz⟩ | ⟨h1, h2, hz⟩ | ⟨h1, h2, hz⟩ <;>
+  rcases zone_cases n j' with ⟨h3, hz'⟩ | ⟨h3, h4, hz'⟩ | ⟨h3, h4, hz'⟩ <;>
+  rw [hz, hz'] <;>
+  refine b12 (P := fun b => nbZ n b _ _ i' j' = none ↔ Hole n b i' j') b hb ?_ ?_ ?_ ?_ ?_ ?_ ?_ ?_ ?_ ?_ ?_ ?_ <;>
+  simp only [nbZ, ofOffsets, ofIndex, seamRule, ncpRule, eqrRule, spcRule, baseCell, next, prev, oppo, Src.eval,
+    Hole] <;>
+  simp <;> omega
+
+/-- `p` has no neighbour in direction `dir`: E / W of the cells at the E / W corner of a polar-cap base cell,
+    S / N of the cells at the S / N corner of an equatorial base cell -/
+def Missing (n : Nat) (p : HashParts) (dir : MW) : Prop :=
+  (p.d0h / 4 ≠ 1 ∧ ((dir = W ∧ p.i = 0 ∧ p.j + 1 = n) ∨ (dir = E ∧ p.i + 1 = n ∧ p.j = 0))) ∨
+  (p.d0h / 4 = 1 ∧ ((dir = S ∧ p.i = 0 ∧ p.j = 0) ∨ (dir = N ∧ p.i + 1 = n ∧ p.j + 1 = n)))
+
+instance (n : Nat) (p : HashParts) (dir : MW) : Decidable (Missing n p dir) := by unfold Missing; infer_instance
+
+theorem neighbourParts_none_iff (n : Nat) (p : HashParts) (dir : MW) (hp : Valid n p) :
+    neighbourParts n p dir = none ↔ Missing n p dir := by
+  obtain ⟨hb, hi, hj⟩ := hp
+  rw [neighbourParts_eq_nbAt, nbAt_none_iff _ _ _ _ hb]
+  cases dir <;> simp [Hole, Missing, offsetSe, offsetSw] <;> omega
+
+theorem isSome_iff (n : Nat) (p : HashParts) (dir : MW) (hp : Valid n p) :
+    (neighbourParts n p dir).isSome = !decide (Missing n p dir) := by
+  have := neighbourParts_none_iff n p dir hp
+  cases h : neighbourParts n p dir <;> simp_all
+
+/-- the cells at one of the 8 points of the sphere where only three cells meet (24 cells for every `n ≥ 2`) -/
+def Special (n : Nat) (p : HashParts) : Prop :=
+  (p.d0h / 4 ≠ 1 ∧ ((p.i = 0 ∧ p.j + 1 = n) ∨ (p.i + 1 = n ∧ p.j = 0))) ∨
+  (p.d0h / 4 = 1 ∧ ((p.i = 0 ∧ p.j = 0) ∨ (p.i + 1 = n ∧ p.j + 1 = n)))
+
+instance (n : Nat) (p : HashParts) : Decidable (Special n p) := by unfold Special; infer_instance
+
+/-- number of directions in which `p` has a neighbour -/
+def count (n : Nat) (p : HashParts) : Nat := (dirs8.filter fun d => (neighbourParts n p d).isSome).length
+
+theorem neighbours_count (n : Nat) (p : HashParts) (hn : 2 ≤ n) (hp : Valid n p) :
+    count n p = if Special n p then 7 else 8 := by
+  have e : ∀ d, (neighbourParts n p d).isSome = !decide (Missing n p d) := fun d => isSome_iff n p d hp
+  have hSE : ¬ Missing n p SE := by simp [Missing]
+  have hSW : ¬ Missing n p SW := by simp [Missing]
+  have hNE : ¬ Missing n p NE := by simp [Missing]
+  have hNW : ¬ Missing n p NW := by simp [Missing]
+  simp only [count, dirs8, List.filter, e]
+  by_cases hS : Missing n p S <;> by_cases hE : Missing n p E <;> by_cases hW : Missing n p W <;>
+  by_cases hN : Missing n p N <;>
+  simp only [hS, hE, hW, hN, hSE, hSW, hNE, hNW, decide_true, decide_false, Bool.not_true, Bool.not_false,
+    List.length_cons, List.length_nil] <;>
+  simp [Missing] at hS hE hW hN <;>
+  by_cases hsp : Special n p <;> simp only [hsp, ↓reduceIte] <;> simp only [Special] at hsp <;> omega
+
+theorem neighbours_count_one (p : HashParts) (hp : Valid 1 p) : count 1 p = 6 := by
+  have e : ∀ d, (neighbourParts 1 p d).isSome = !decide (Missing 1 p d) := fun d => isSome_iff 1 p d hp
+  have hSE : ¬ Missing 1 p SE := by simp [Missing]
+  have hSW : ¬ Missing 1 p SW := by simp [Missing]
+  have hNE : ¬ Missing 1 p NE := by simp [Missing]
+  have hNW : ¬ Missing 1 p NW := by simp [Missing]
+  obtain ⟨hb, hi, hj⟩ := hp
+  simp only [count, dirs8, List.filter, e]
+  by_cases hS : Missing 1 p S <;> by_cases hE : Missing 1 p E <;> by_cases hW : Missing 1 p W <;>
+  by_cases hN : Missing 1 p N <;>
+  simp only [hS, hE, hW, hN, hSE, hSW, hNE, hNW, decide_true, decide_false, Bool.not_true, Bool.not_false,
+    List.length_cons, List.length_nil] <;>
+  simp [Missing] at hS hE hW hN <;> omega
+
+/-! ## tie with `Layer.centerXY` (the centre used by the rest of the development) -/
+
+/-- the centre of the specification is `Layer.centerXY` (which reduces the abscissa to `[0, 8n)`) -/
+theorem centerXY_eq (d : Nat) (p : HashParts) (hb : p.d0h < 12) :
+    Layer.centerXY d p =
+      ((if (center (Layer.nside d) p).1 < 0 then (center (Layer.nside d) p).1 + 8 * (Layer.nside d : Int)
+        else (center (Layer.nside d) p).1), (center (Layer.nside d) p).2) := by
+  obtain ⟨b, i, j⟩ := p
+  simp only at hb
+  refine b12 (P := fun b => Layer.centerXY d ⟨b, i, j⟩ =
+      ((if (center (Layer.nside d) ⟨b, i, j⟩).1 < 0 then (center (Layer.nside d) ⟨b, i, j⟩).1 + 8 * (Layer.nside d : Int)
+        else (center (Layer.nside d) ⟨b, i, j⟩).1), (center (Layer.nside d) ⟨b, i, j⟩).2)) b hb
+    ?_ ?_ ?_ ?_ ?_ ?_ ?_ ?_ ?_ ?_ ?_ ?_ <;>
+  simp [Layer.centerXY, center, baseX, baseY] <;>
+  omega
+
 /-! ## the key in linear form -/
 
 /-- `x mod 8n` for `−8n ≤ x < 16n` -/
